@@ -28,6 +28,8 @@ type c05Case struct {
 	FaultC2S []relay.Decision `json:"fault_c2s,omitempty"` // relay messages on the client->server stream
 	FaultS2C []relay.Decision `json:"fault_s2c,omitempty"`
 	LatMs    int              `json:"lat_ms"`
+	// Bufs: read-buffer sizes used by both readers, cycled (empty: 70000).
+	Bufs []int `json:"bufs,omitempty"`
 	// ArmAfter: faults start after the Noise handshake (true) or right after
 	// the GBN handshake (false).
 	ArmAfter bool `json:"arm_after_noise"`
@@ -168,9 +170,14 @@ func runC05(t *testing.T, c *c05Case) (out c05Outcome) {
 			}()
 			go func() { // reader
 				defer wg.Done()
-				buf := make([]byte, 70000)
-				got := 0
+				big := make([]byte, 70000)
+				got, bi := 0, 0
 				for got < peerTotal {
+					buf := big
+					if len(c.Bufs) > 0 {
+						buf = big[:c.Bufs[bi%len(c.Bufs)]]
+						bi++
+					}
 					n, err := safeConnRead(s.conn, buf)
 					mu.Lock()
 					s.read = append(s.read, buf[:n]...)
@@ -333,6 +340,9 @@ func genC05(t *rapid.T) *c05Case {
 	c.FaultS2C = genRelayScript(t, "f_s2c", 80)
 	c.LatMs = rapid.SampledFrom([]int{0, 1, 50, 200}).Draw(t, "lat")
 	c.ArmAfter = rapid.IntRange(0, 3).Draw(t, "arm_after") != 0
+	if rapid.Bool().Draw(t, "vary_bufs") {
+		c.Bufs = rapid.SliceOfN(rapid.SampledFrom([]int{100, 1000, 32768, 32769, 65535, 65536, 70000}), 1, 4).Draw(t, "bufs")
+	}
 	return c
 }
 
